@@ -3,6 +3,8 @@ sys.path.insert(0, os.path.dirname(__file__))
 from _common import *
 K = 'acme_common/src/crypto/openssl_keys.rs'
 OSSL = ['openssl model (env/openssl_env): keys are identities; ECDSA r/s, EC x/y, RSA n/e are minimal big-endian vectors of SYMBOLIC length and content (BN_bn2bin contract, first byte non-zero); to_vec_padded follows BN_bn2binpad; signatures are records (signer, digest, input length); SHA-2 is a structural fold, not a model of collision resistance']
+def JWK_UW(n):
+    return {'to_vec_padded': n + 1}
 SPEC = {
     'id': 'C15',
     'outside': 'OpenSSL key generation, PEM/DER round trips and real signature verification (C library); JWK member sets and base64url of coordinates (serde_json Value construction did not converge -- see DESIGN); EdDSA public-key string surgery (str::lines/replace over a symbolic PEM did not converge); r/s shorter than size-1 bytes through sign_ecdsa itself (covered for every length by the padding-macro harness at sizes <= 5)',
@@ -21,6 +23,19 @@ SPEC = {
                 {'name': 'c15_ecdsa_len_p521', 'file': K, 'timeout': 1800, 'bounds': 'r and s of ANY minimal length 1..66 each (symbolic)', 'asserts': 'sign(): R||S has exactly 132 bytes'},
                 {'name': 'c15_ecdsa_fixed_width_p256_r_any', 'file': K, 'tiers': ['thorough'], 'timeout': 7200, 'mem_gb': 40, 'bounds': 'r any length 1..32, s 32 bytes', 'asserts': 'byte-for-byte alignment at full size'},
                 {'name': 'c15_ecdsa_fixed_width_p256_both_short', 'file': K, 'tiers': ['thorough'], 'timeout': 7200, 'mem_gb': 40, 'bounds': 'r 31 bytes, s 30 bytes', 'asserts': 'byte-for-byte alignment at full size'},
+            ],
+        },
+        {
+            'name': 'ac_jwk', 'pkg': 'acme_common', 'features': 'openssl_dyn', 'shims': ['openssl'],
+            'edits': [{'file': 'acme_common/src/lib.rs', 'fn': 'b64_encode', 'body': '\tlet s = openssl::st();\n\tif s.b64_calls < 4 { s.b64_in_len[s.b64_calls] = input.as_ref().len(); }\n\ts.b64_calls += 1;\n\tString::new()'}],
+            'assumptions': ['acme_common::b64_encode cut: records the length of its input and returns an empty string (base64 itself is the base64 crate: trusted)'],
+            'harness_files': {K: 'harness/ac_keys.rs'},
+            'harnesses': [
+                {'name': 'c15_ecdsa_jwk_p256', 'file': K, 'timeout': 2400, 'unwindset': JWK_UW(32), 'bounds': 'P-256 public point x, y of ANY minimal length 1..32 (symbolic bytes)', 'asserts': 'x and y are each encoded from exactly 32 bytes (fixed width)'},
+                {'name': 'c15_ecdsa_jwk_thumbprint_p256', 'file': K, 'timeout': 2400, 'unwindset': JWK_UW(32), 'bounds': 'same, thumbprint form', 'asserts': 'same'},
+                {'name': 'c15_ecdsa_jwk_p384', 'file': K, 'timeout': 2400, 'unwindset': JWK_UW(48), 'bounds': 'P-384, x, y of any minimal length 1..48', 'asserts': 'encoded from exactly 48 bytes'},
+                {'name': 'c15_ecdsa_jwk_p521', 'file': K, 'timeout': 2400, 'unwindset': JWK_UW(66), 'bounds': 'P-521, x, y of any minimal length 1..66', 'asserts': 'encoded from exactly 66 bytes'},
+                {'name': 'c15_rsa_jwk', 'file': K, 'timeout': 2400, 'unwindset': JWK_UW(4), 'bounds': 'RSA n, e minimal vectors of symbolic length 1..4', 'asserts': 'e and n encoded from the minimal vectors'},
             ],
         },
     ],
